@@ -344,6 +344,17 @@ def head_streams(rnd, thorough):
         out.append(response("101", []).replace(b"\r\n\r\n", b"\r\n" + line.encode("utf-8") + b"\r\n\r\n"))
         out.append(response("101", [("Set-Cookie", "z=9")]).replace(
             b"\r\n\r\n", b"\r\n" + line.encode("utf-8") + b"\r\nSet-Cookie: q=1\r\n\r\n"))
+    # values of the VALIDATED headers that are well-formed UTF-8 but not ASCII (an otherwise acceptable 101 response)
+    right = accept_of(k)
+    for v in ["caf\u00e9", right + "\u00e9", "\u00e9" + right, right[:10] + "\u0130" + right[10:], "\u212a" + right[1:],
+              "\U0001f600", "\u017f" + right[1:]]:
+        out.append(response("101", good_headers(k, accept=v)))
+    for v in ["websocket\u00e9", "web\u017focket", "\u212aebsocket", "WEB\u0131SOCKET"]:
+        out.append(response("101", good_headers(k, upgrade=v)))
+    for v in ["Upgrade\u00e9", "\u00dcpgrade", "upgrade, \u00e9"]:
+        out.append(response("101", good_headers(k, connection=v)))
+    for v in ["ch\u00e4t", "\u212a"]:
+        out.append(response("101", good_headers(k, sub=v)))
     # line endings
     for eol in ["\n", "\r", "\r\r\n", "\n\r"]:
         out.append(response("101", good_headers(k), eol=eol))
